@@ -176,7 +176,14 @@ def gen_ctype(rng):
     return t
 
 
-def gen_fields(rng, *, max_fields=8, max_file=400, boundary_hint=None):
+TEXT_CTYPES_NEUTRAL = ['text/plain', 'text/plain; charset=utf-8', 'text/plain; charset="UTF-8"', 'text/plain;charset=UTF-8']
+TEXT_CTYPES_HOSTILE = TEXT_CTYPES_NEUTRAL + ['text/plain; charset=klingon', 'text/plain; charset=hex', 'text/plain; charset=',
+                                             'text/plain; charset="', 'text/plain; charset=utf-16', 'text/plain; charset=base64',
+                                             'text/plain; charset=\x00', 'text/plain; charset=undefined', 'text/plain; charset=idna',
+                                             '; charset=rot13', 'text/plain; charset=' + 'x' * 300]
+
+
+def gen_fields(rng, *, max_fields=8, max_file=400, boundary_hint=None, text_ctypes=None):
     """List of fields: {'name', 'value'} or {'name', 'filename', 'ctype', 'data'(hex)}"""
     n = rng.choice([0, 1, 1, 2, 3, 4, rng.randint(0, max_fields)])
     names = [gen_name(rng) for _ in range(max(1, (n + 1) // 2))]
@@ -185,6 +192,9 @@ def gen_fields(rng, *, max_fields=8, max_file=400, boundary_hint=None):
         name = rng.choice(names) if rng.random() < 0.6 else gen_name(rng)
         if rng.random() < 0.5:
             out.append({'name': name, 'value': gen_text(rng)})
+            if text_ctypes and rng.random() < 0.25:
+                # a text part that states its own media type (RFC 7578 4.4 / 4.5)
+                out[-1]['ctype'] = rng.choice(text_ctypes)
         else:
             out.append({'name': name, 'filename': gen_name(rng), 'ctype': gen_ctype(rng) if rng.random() < 0.8 else None,
                         'data': None, '_max': rng.choice([0, 1, 5, 30, max_file])})
